@@ -17,8 +17,15 @@ CondCode(c) ==
       [] c.k = "kind" -> 13 + 3 * SCode(c.f) + SCode(c.v)
       [] c.k = "oft" -> 17 + 5 * Len(c.tt) + 7 * SCode(c.tt[1]) + (IF c.x THEN 1 ELSE 0) + 2 * SCode(c.v)
       [] c.k = "cmp" -> 19 + 3 * SCode(c.op) + 5 * SCode(c.lit) + SCode(c.v)
-      [] c.k = "ver" -> 23 + SCode(c.op) + c.tup[Len(c.tup)]
+      [] c.k = "ver" -> 23 + SCode(c.op) + (IF c.tup = << >> THEN 0 ELSE c.tup[Len(c.tup)].n) + 3 * Len(c.tup)
+      [] c.k = "veri" -> 41 + SCode(c.op) + c.n + c.i
       [] c.k = "plat" -> 29 + SCode(c.op) + (IF c.name = "linux" THEN 1 ELSE 0)
+      [] c.k = "platin" -> 43 + SCode(c.op) + Len(c.names)
+      [] c.k = "platsw" -> 47 + SCode(c.name)
+      [] c.k = "cmpin" -> 53 + SCode(c.op) + Len(c.lits)
+      [] c.k = "chain" -> 59 + SCode(c.w)
+      [] c.k = "cmprev" -> 61 + SCode(c.lit)
+      [] c.k = "bare" -> 67 + SCode(c.w)
       [] c.k = "not" -> 2 * CondCode(c.c) + 1
       [] c.k = "and" -> 3 * CondCodeFrom(c.cs, 1) + 31
       [] c.k = "or" -> 3 * CondCodeFrom(c.cs, 1) + 37
@@ -27,7 +34,7 @@ RECURSIVE BodyHashFrom(_, _)
 BodyHashFrom(lines, i) ==
     IF i > Len(lines) THEN 0
     ELSE i * (7 * lines[i].ind + KCode(lines[i].k) + CondCode(lines[i].c)) + BodyHashFrom(lines, i + 1)
-Selected(c) == EmitMod = 1 \/ IsProbe(c.lines) \/ BodyHashFrom(c.lines, 1) % EmitMod = EmitRes
+Selected(c) == EmitMod = 1 \/ IsProbe(c.lines) \/ IsProbe2(c.lines) \/ BodyHashFrom(c.lines, 1) % EmitMod = EmitRes
 
 EmitDone == (stage = "done" /\ Selected(case)) => PrintT(ToJson(case))
 =============================================================================
